@@ -97,7 +97,7 @@ def run(chk, prog):
     fnv = prog.fn("vfps::PhaseSpace::variance")
     g = Fl.CFG(fnv)
     is_avg = Fl.is_call_to("vfps::PhaseSpace::average")
-    loopy = lambda n_: n_.get("k") == "CallExpr" and n_.get("callee") == "std::pow"
+    loopy = lambda n_: n_.get("k") == "CompoundAssignOperator" and n_.get("op") == "+=" and (A.declref(n_["c"][0]) or {}).get("name") == "var"
     res = g.every_path_to(loopy, is_avg)
     chk.check(bool(res) and all(ok for _, ok in res), "R2", fnv.where, "variance refreshes the mean (average(axis)) before using it", "variance:average-first")
     avc = [c for c in sv.calls if c.callee == "vfps::PhaseSpace::average"]
